@@ -207,7 +207,8 @@ func (v *FnVC) encodeInstr(ins ssa.Instruction) {
 		k := v.regKey("CH:len", "(Array Int Int)")
 		v.S.declFun("chan_cap", "(Int) Int")
 		h := v.heapGet(st, k)
-		// blocks until there is room (or a receiver): afterwards len <= cap
+		// a send on a buffered channel blocks until there is room: it completes only when len < cap (A-go)
+		v.narrow(fmt.Sprintf("(or (<= (chan_cap %s) 0) (< (select %s %s) (chan_cap %s)))", c.S, h, c.S, c.S))
 		v.heapSet(st, k, fmt.Sprintf("(store %s %s (+ (select %s %s) 1))", h, c.S, h, c.S))
 		v.chanEvent("send", c, i.Pos())
 	case *ssa.Select:
@@ -327,7 +328,8 @@ func (v *FnVC) encodeUnOp(i *ssa.UnOp) {
 		okc := v.freshConst("recvok", "Bool")
 		// a successful receive removes one element (when buffered); closed+empty gives zero,false
 		v.heapSet(st, k, fmt.Sprintf("(store %s %s (ite %s (- (select %s %s) 1) (select %s %s)))", h, c.S, okc, h, c.S, h, c.S))
-		v.chanEvent("recv", c, i.Pos())
+		v.S.declFun("chan_fired", "(Int) Bool")
+		v.narrow(fmt.Sprintf("(chan_fired %s)", c.S))
 		if i.CommaOk {
 			v.tuples[i] = []Term{got, boolT(okc)}
 		} else {
@@ -772,7 +774,9 @@ func (v *FnVC) encodeNext(i *ssa.Next) {
 }
 
 func (v *FnVC) encodeSelect(i *ssa.Select) {
-	// every state may be chosen; received values are havocked
+	// Any ready case may be chosen. For buffered channels readiness is known from the modelled length:
+	// a send is ready iff len < cap, a receive iff len > 0; the default case of a non-blocking select is taken
+	// only when no case on a buffered channel is ready. Received values are havocked.
 	tup := i.Type().(*types.Tuple)
 	n := len(i.States)
 	idx := v.freshConst("selidx", "Int")
@@ -781,11 +785,38 @@ func (v *FnVC) encodeSelect(i *ssa.Select) {
 		lo = -1
 	}
 	v.asserts = append(v.asserts, fmt.Sprintf("(and (<= %d %s) (< %s %d))", lo, idx, idx, n))
-	res := []Term{intT(idx), boolT(v.freshConst("recvok", "Bool"))}
+	recvOk := v.freshConst("recvok", "Bool")
+	res := []Term{intT(idx), boolT(recvOk)}
 	for k := 2; k < tup.Len(); k++ {
 		res = append(res, v.havocVal("selrecv", tup.At(k).Type()))
 	}
 	v.tuples[i] = res
-	k := v.regKey("CH:len", "(Array Int Int)")
-	v.havocKey(v.cur, k)
+	st := v.cur
+	key := v.regKey("CH:len", "(Array Int Int)")
+	v.S.declFun("chan_cap", "(Int) Int")
+	h := v.heapGet(st, key)
+	nh := h
+	var notReady []string
+	for k, s := range i.States {
+		c := v.val(s.Chan)
+		ln := fmt.Sprintf("(select %s %s)", h, c.S)
+		buffered := fmt.Sprintf("(> (chan_cap %s) 0)", c.S)
+		if s.Dir == types.SendOnly {
+			// chosen send: there was room
+			v.narrow(fmt.Sprintf("(=> (and (= %s %d) %s) (< %s (chan_cap %s)))", idx, k, buffered, ln, c.S))
+			nh = fmt.Sprintf("(ite (= %s %d) (store %s %s (+ %s 1)) %s)", idx, k, h, c.S, ln, nh)
+			notReady = append(notReady, fmt.Sprintf("(=> %s (>= %s (chan_cap %s)))", buffered, ln, c.S))
+		} else {
+			// chosen receive on a buffered channel: an element was there (or the channel is closed)
+			nh = fmt.Sprintf("(ite (and (= %s %d) %s (> %s 0)) (store %s %s (- %s 1)) %s)", idx, k, buffered, ln, h, c.S, ln, nh)
+			// chanFired(c): some receive on c has completed (for a context's Done channel: the context is done)
+			v.S.declFun("chan_fired", "(Int) Bool")
+			v.narrow(fmt.Sprintf("(=> (= %s %d) (chan_fired %s))", idx, k, c.S))
+			notReady = append(notReady, fmt.Sprintf("(=> %s (<= %s 0))", buffered, ln))
+		}
+	}
+	if !i.Blocking && len(notReady) > 0 {
+		v.narrow(fmt.Sprintf("(=> (= %s (- 1)) (and %s))", idx, strings.Join(notReady, " ")))
+	}
+	v.heapSet(st, key, nh)
 }
